@@ -22,6 +22,16 @@ fn main() {
         });
         std::process::exit(code);
     }
+    if args[1] == "selftest" {
+        match engine::fsfault::self_test() {
+            Ok(()) => println!("fsfault self-test ok"),
+            Err(e) => {
+                eprintln!("fsfault self-test FAILED: {}", e);
+                std::process::exit(2);
+            }
+        }
+        std::process::exit(0);
+    }
     let id = args[1].clone();
     let verif_dir = PathBuf::from(std::env::var("VERIF_DIR").unwrap_or_else(|_| "/verif".into()));
     if args[2] == "replay" {
@@ -78,7 +88,27 @@ fn main() {
         verif_dir,
         exe: std::env::current_exe().expect("current_exe"),
     };
+    // the library prints diagnostics with println! (e.g. "err compressing"); keep our stdout clean
+    let saved = unsafe {
+        use std::io::Write;
+        let _ = std::io::stdout().flush();
+        let saved = libc::dup(1);
+        let null = libc::open(b"/dev/null\0".as_ptr() as *const libc::c_char, libc::O_WRONLY);
+        if null >= 0 {
+            libc::dup2(null, 1);
+            libc::close(null);
+        }
+        saved
+    };
     let rep = std::panic::catch_unwind(std::panic::AssertUnwindSafe(|| props::run(&ctx)));
+    unsafe {
+        use std::io::Write;
+        let _ = std::io::stdout().flush();
+        if saved >= 0 {
+            libc::dup2(saved, 1);
+            libc::close(saved);
+        }
+    }
     engine::sandbox::cleanup_scratch();
     match rep {
         Ok(Some(rep)) => std::process::exit(engine::finish(&ctx, rep)),
